@@ -71,9 +71,9 @@ pub open spec fn all_ends_ok(ls: Seq<Seq<char>>) -> bool { forall|k: int| 0 <= k
 
 pub open spec fn all_ws(s: Seq<char>) -> bool { forall|k: int| 0 <= k < s.len() ==> is_ws(#[trigger] s[k]) }
 
-// TRUSTED(T3): the space is white space (is_ws is the uninterpreted char::is_whitespace)
+// TRUSTED(T3): space, tab and line feed are white space (is_ws is the uninterpreted char::is_whitespace)
 pub axiom fn axiom_space_is_ws()
-    ensures is_ws(' ');
+    ensures is_ws(' '), is_ws('\t'), is_ws('\n');
 
 // text = seps[0] + kept[0] + seps[1] + kept[1] + ... + kept[n-1] + seps[n]     (seps.len() == kept.len() + 1)
 pub open spec fn interleave(kept: Seq<Seq<char>>, seps: Seq<Seq<char>>) -> Seq<char>
@@ -167,4 +167,17 @@ pub proof fn lemma_kept_prefix(fl: Seq<Option<Seq<char>>>, m: int)
             assert(b[k] == a[k]);
         }
     }
+}
+
+// what the loader returns for the joined text: the text is cut after every rule-ending period and nowhere else
+// (segs), each returned rule is its segment without surrounding white space; an error exactly when the text has
+// unbalanced brackets
+pub open spec fn loaded_as(text: Seq<char>, segs: Seq<Seq<char>>, res: Result<Vec<String>, String>) -> bool {
+    &&& (res is Ok <==> (rdepth(text, text.len() as int) == 0 && sdepth(text, text.len() as int) == 0))
+    &&& (res matches Ok(rules) ==> {
+            &&& segs.len() == rules@.len()
+            &&& segmented(text, segs, total_len(segs))
+            &&& no_rule_end_in(text, total_len(segs), text.len() as int)
+            &&& forall|k: int| 0 <= k < segs.len() ==> is_trim_of(#[trigger] rules@[k]@, segs[k])
+        })
 }
